@@ -237,6 +237,12 @@ class World:
                 self.add_synth_stream(s)
             else:
                 self.add_fixture_stream(s, with_subs=with_subs, copy=writable_blobs)
+        if users:
+            # a second, explicit (not computed) key so that key-set alphabets have two known ids
+            if models.Key.get(hkid='00112233445566778899aabbccddeeff') is None:
+                db.session.add(models.Key(hkid='00112233445566778899aabbccddeeff',
+                                          hkey='ffeeddccbbaa99887766554433221100', computed=False))
+                db.session.commit()
         if mps and 'bbb' in streams and 'tears' in streams:
             self.add_mps('testmps', [
                 dict(pid='p1', stream='bbb', start=4, duration=32, tracks=[('video', 1), ('audio', 2)]),
